@@ -20,14 +20,21 @@ func C06(c *core.Ctx) {
 		"C06 family: a string property in 6 positions (required, optional, nullable in both type-list orders, behind #/$defs and #/definitions references) × all 8 subsets of " +
 		"{minLength, maxLength, pattern}, JSON and YAML methods. Additional clauses: the length measure must count characters (A-REJ:chars); emitted code may not discard the matcher's error (A-ERRDROP2); " +
 		"no schema text is used as a printf format (A-EVENT:symbolic-format); with a default on the same property the default assignment precedes every length/pattern check in both methods (A-DEF). A-FIDELITY: (*Type).UnmarshalJSON interpreted on the one-keyword document {kw: v} leaves exactly what plain encoding/json makes of it — the stated value is neither normalised nor dropped (a zero is a stated value). Not decided: regexp dialect differences."
-	rules := ruleSet("A-REJ", "A-NOEXTRA", "A-NILG", "A-ERRDROP2", "A-EVENT")
+	rules := ruleSet("A-REJ", "A-NOEXTRA", "A-NILG", "A-ERRDROP2", "A-EVENT", "A-CTX")
 	cfg := gen.DefaultConfig()
 	for _, pos := range positions {
 		for _, kws := range subsets([]string{"minLength", "maxLength", "pattern"}) {
 			sp := &fam.Spec{Kind: "string", Kw: kws}
 			mb := member{name: "string " + pos + " " + sp.String(), cfg: cfg, root: place(sp, pos)}
 			runMember(c, mb, rules, 16, func(w *fam.World, fm *fam.FileModel) []fam.Issue {
-				return w.CheckObject(fm, w.Spec, "", "root")
+				is := w.CheckObject(fm, w.Spec, "", "root")
+				// the pattern's text reaches its literal as one piece (A-CTX:cut)
+				for _, x := range w.CtxIssues() {
+					if x.Rule == "A-CTX:cut" {
+						is = append(is, x)
+					}
+				}
+				return is
 			})
 		}
 	}
